@@ -7,7 +7,7 @@ import (
 
 // MatchTemplate reports whether got is an acceptable rendering of the expected string value:
 // literal segments must match exactly; a float segment accepts any decimal rendering that
-// parses back to the value up to half a unit of the sixth decimal (the format of floats in
+// parses back to the value within one unit of the sixth decimal (the format of floats in
 // concatenations is not documented) or 1e-12 relative.
 func MatchTemplate(want Val, got string) bool {
 	if want.Segs == nil {
@@ -49,5 +49,5 @@ func floatClose(a, b float64) bool {
 		return true
 	}
 	d := math.Abs(a - b)
-	return d <= 0.5000001e-6 || d <= 1e-12*math.Max(math.Abs(a), math.Abs(b))
+	return d <= 1.0000001e-6 || d <= 1e-12*math.Max(math.Abs(a), math.Abs(b))
 }
